@@ -371,6 +371,10 @@ def _get_insertion_index(routing_table, generality):
     """Determine the index in the routing table where a new entry should be
     inserted.
     """
+    # An empty table has only one possible insertion point
+    if not routing_table:
+        return 0
+
     # We insert before blocks of equivalent generality, so decrement the given
     # generality.
     generality -= 1
